@@ -472,19 +472,36 @@ def opaque_pairs(ctx: Ctx) -> None:
                 if not torch.equal(a.nan_to_num(), a_again.nan_to_num()):
                     ctx.violation(f"opaque:{mname}:repeat", f"{mname} hedger on {label}: a second evaluation on the same, unchanged derivative gives another hedge "
                                   "(something computed for later steps survived the first evaluation)", {"max_abs_diff": float((a - a_again).abs().nan_to_num().max())})
-                Tn = a.size(-1)
-                mask = (torch.arange(Tn)[None, :] <= cut[:, None])[:, None, :].expand_as(a)
-                mask = mask | (cut == Tn - 2)[:, None, None].expand_as(a)
-                both_nan = a.isnan() & b.isnan()
-                diff = ((a != b) & ~both_nan & mask).any(dim=(1, 2))
+                def judge(a, b, how):
+                    Tn = a.size(-1)
+                    mask = (torch.arange(Tn)[None, :] <= cut[:, None])[:, None, :].expand_as(a)
+                    mask = mask | (cut >= Tn - 2)[:, None, None].expand_as(a)
+                    both_nan = a.isnan() & b.isnan()
+                    diff = ((a != b) & ~both_nan & mask).any(dim=(1, 2))
+                    if bool(diff.any()):
+                        i = int(diff.nonzero()[0])
+                        ctx.violation(f"opaque:{mname}:anticipates{how}", f"{mname} hedger on {label}{how}: changing the future changed positions at or before the cut",
+                                      {"mA": ps[i]["mA"], "mB": ps[i]["mB"], "cut": ps[i]["cut"], "hedgeA": a[i].tolist(), "hedgeB": b[i].tolist()})
+                    if not torch.equal(a[..., -1].nan_to_num(), a[..., -2].nan_to_num()):
+                        ctx.violation(f"opaque:{mname}:trade-at-maturity{how}", f"{mname} hedger on {label}{how}: final position differs from the one held over the last step", {})
+                judge(a, b, "")
                 total += len(ps)
                 ctx.count(("opaque", label, mname, T), n=len(ps))
-                if bool(diff.any()):
-                    i = int(diff.nonzero()[0])
-                    ctx.violation(f"opaque:{mname}:anticipates", f"{mname} hedger on {label}: changing the future changed positions at or before the cut",
-                                  {"mA": ps[i]["mA"], "mB": ps[i]["mB"], "cut": ps[i]["cut"], "hedgeA": a[i].tolist(), "hedgeB": b[i].tolist()})
-                if not torch.equal(a[..., -1].nan_to_num(), a[..., -2].nan_to_num()):
-                    ctx.violation(f"opaque:{mname}:trade-at-maturity", f"{mname} hedger on {label}: final position differs from the one held over the last step", {})
+                if T >= 3 and mname not in ("shared_extractor",):
+                    # the hedging instrument is another asset whose series is SHORTER than the underlier's (hedging stops early):
+                    # the position held over step t still depends on the underlier's prices up to t only
+                    from pfhedge.instruments import BrownianStock
+                    short = BrownianStock(cost=1e-3, dt=DT, dtype=dtype)
+                    short.register_buffer("spot", torch.ones((len(ps), T - 1), dtype=dtype))
+                    try:
+                        with torch.no_grad():
+                            sa_ = hedger.compute_hedge(dA, hedge=[short])
+                            sb_ = hedger.compute_hedge(dB, hedge=[short])
+                    except Exception as e:
+                        ctx.skip(f"hedge with a shorter series than the underlier is not accepted ({type(e).__name__})", len(ps))
+                    else:
+                        judge(sa_, sb_, ":short-hedge")
+                        ctx.count(("opaque-short-hedge", label, mname, T), n=len(ps))
     ctx.sections["opaque_pair_runs"] = total
     ctx.traces_validated += total
 
@@ -510,12 +527,14 @@ def features_on_every_derivative(ctx: Ctx) -> None:
     dtype = torch.float64
     # ("empty" is uninitialised memory by definition; prev_hedge needs a hedger and is the subject of the Hedge.tla replay)
     names = [n for n in list_feature_names() if n not in ("prev_hedge", "empty")] + ["barrier_up_0.55", "barrier_dn_0.45", "log_spot", "underlier_log_spot"]
-    available, unavailable = 0, 0
+    available, unavailable, nonpos = 0, 0, 0
     for T, ps in byT.items():
         cut = torch.tensor([r["cut"] for r in ps])
 
-        def market(side, dname):
+        def market(side, dname, first=None):
             spot = torch.tensor([p[side]["spot"] for p in ps], dtype=dtype) * 0.5
+            if first is not None:          # quotes that are zero / negative at time 0 (spreads, rates): log features are -inf / nan THERE
+                spot[:, 0] = first
             var = torch.tensor([p[side]["var"] for p in ps], dtype=dtype) * 0.04
             ul = HestonStock(dt=DT, dtype=dtype)
             ul.register_buffer("spot", spot)
@@ -553,6 +572,31 @@ def features_on_every_derivative(ctx: Ctx) -> None:
                     i = int(diff.nonzero()[0])
                     ctx.violation(f"feature-on:{dname}:{f}:anticipates", f"feature {f} of a {dname}: changing prices after step {ps[i]['cut']} changed the feature at or before that step",
                                   {"mA": ps[i]["mA"], "mB": ps[i]["mB"], "cut": ps[i]["cut"], "featureA": a[i].flatten().tolist(), "featureB": b[i].flatten().tolist()})
+        # the same for a quoted series that starts at zero / below zero: whatever a feature shows at step 0 (-inf, nan, a floor)
+        # must not depend on later quotes
+        firsts = torch.tensor([0.0, -0.5], dtype=dtype).repeat(len(ps))[:len(ps)]
+        for f in names:
+            try:
+                from lib.doubles import make_feature
+                fa = get_feature(make_feature(f, 1, dtype)).of(market("mA", "EuropeanOption", firsts))
+                fb = get_feature(make_feature(f, 1, dtype)).of(market("mB", "EuropeanOption", firsts))
+                a, b = fa.get(None), fb.get(None)
+                a1, b1 = torch.cat([fa.get(i) for i in range(T)], dim=1), torch.cat([fb.get(i) for i in range(T)], dim=1)
+            except Exception:
+                continue
+            nonpos += 1
+            ctx.count(("feature-on-nonpositive", f, T), n=len(ps))
+            for x, y, form in ((a, b, "all-steps"), (a1, b1, "single-step")):
+                if x.shape != y.shape or x.dim() != 3 or x.size(1) != T:
+                    continue
+                mask = (torch.arange(T)[None, :] <= cut[:, None])[:, :, None].expand_as(x)
+                diff = ((x != y) & ~(x.isnan() & y.isnan()) & mask).any(dim=(1, 2))
+                if bool(diff.any()):
+                    i = int(diff.nonzero()[0])
+                    ctx.violation(f"feature-on:nonpositive-quote:{f}:anticipates", f"feature {f} ({form}) on a series starting at {float(firsts[i])}: changing prices after step "
+                                  f"{ps[i]['cut']} changed the feature at or before that step",
+                                  {"mA": ps[i]["mA"], "mB": ps[i]["mB"], "cut": ps[i]["cut"], "first": float(firsts[i]), "featureA": x[i].flatten().tolist(), "featureB": y[i].flatten().tolist()})
+    ctx.sections["feature_nonpositive_quotes"] = nonpos
     if available < 40:
         raise MachineryError(f"features_on_every_derivative: only {available} (derivative, feature) pairs could be evaluated")
     ctx.sections["feature_derivative_pairs"] = {"available": available, "not_available": unavailable}
